@@ -380,7 +380,13 @@ func (g *Gen) genC04() {
 		alpha := []string{"", "0123456789.x", "0123456789abcdef:[]x", "sipSIPtel:@;?&=[].a1", "abAB-_@.:*/+=|19"}[r.N(5)]
 		s := r.RandBytes(alpha, 0, 24)
 		var line, kind string
-		switch r.N(14) {
+		switch r.N(16) {
+		case 14, 15: // result buffers of every length (also odd ones, and longer than the address)
+			if r.P(50) {
+				s = r.Pick("1.2.3.4", "255.255.255.255", "::1", "[::]", "1:2:3:4:5:6:7:8", "id-a::b@host", "x9.8.7.6y", "fe80::1:2", "::ffff:1.2.3.4", s)
+			}
+			op := r.Pick("ip4prefixd", "containsip4d", "ip6prefixd", "containsip6d", "ip6prefixd", "containsip6d")
+			line, kind = fmt.Sprintf("%s %s %d", op, hx(s), r.N(20)), op
 		case 0:
 			line, kind = "hdrtype "+hx(s), "hdrtype"
 		case 1:
@@ -428,6 +434,7 @@ func (g *Gen) genC11() {
 	g.exhShift("C11", "")
 	r := g.r
 	n := g.budget(2500, 80000)
+	nlimit := 0
 	for i := 0; i < n; i++ {
 		var hd, text, kind, tail string
 		flags := 0
@@ -446,8 +453,12 @@ func (g *Gen) genC11() {
 			junk = strings.Repeat("\x00", 1+r.N(300))
 		case 2:
 			junk = text
-		case 3: // the text ends exactly at the 65535 limit
+		case 3: // the text ends exactly at the 65535 limit (64 KiB sessions: a bounded number of them)
 			k := 65535 - len(text)
+			nlimit++
+			if nlimit > g.budget(40, 3000) {
+				k = 1 + r.N(4000)
+			}
 			if k > 0 {
 				junk = strings.Repeat(r.Pick("x", " ", "\r\n", ";"), k)[:k]
 			} else {
